@@ -4,7 +4,9 @@ package main
 
 import (
 	"bytes"
+	"encoding/base32"
 	"errors"
+	"fmt"
 	"io/fs"
 	"os"
 	"path/filepath"
@@ -24,6 +26,11 @@ const nameMax = 255 // NAME_MAX of the file systems the tie runs on (tmpfs/ext4/
 // ---------------------------------------------------------------- generator
 
 func encLen(n int) int { return 4 + (8*n+4)/5 } // len("key_" + base32-nopad(n bytes))
+
+// fileName is the documented on-disk name of a key, computed independently of the keystore package
+func fileName(name []byte) string {
+	return "key_" + strings.ToLower(base32.StdEncoding.WithPadding(base32.NoPadding).EncodeToString(name))
+}
 
 func mkNames(r *vh.Rand) [][]byte {
 	ns := [][]byte{
@@ -75,7 +82,51 @@ func gen(r *vh.Rand, tier string, n int, emit func(vh.Case)) {
 		if tier == "thorough" && rr.Chance(1, 8) {
 			ln = rr.Range(30, 120)
 		}
+		// foreign objects in the keystore directory (a quarter of the cases): symbolic links (dangling or
+		// live) / regular files / directories under the encoded file name of a pool name, and junk names
+		foreign := rr.Chance(1, 4)
+		nTargets := 0
+		plant := func() string {
+			fname := vh.Pick(rr, []string{"junk", ".hidden", "key_", "key_a", "key_abc", "key_mfrgg1", "key_MFRGG", "key_mfrggzdfmy", "KEY_mfrgg"})
+			if rr.Chance(3, 4) {
+				n := vh.Pick(rr, pool)
+				if len(n) > 0 && encLen(len(n)) <= nameMax {
+					fname = fileName(n)
+				}
+			}
+			content := func() string {
+				if rr.Bool() {
+					return vh.Pick(rr, keys) + " 1"
+				}
+				b := rr.Bytes(rr.Range(0, 12))
+				ok := 0
+				if _, err := ci.UnmarshalPrivateKey(b); err == nil {
+					ok = 1
+				}
+				return vh.Hex(b) + " " + strconv.Itoa(ok)
+			}
+			switch rr.Intn(6) {
+			case 0, 1, 2:
+				nTargets++
+				return fmt.Sprintf("plantsym %s outside/t%d", fname, rr.Range(1, nTargets))
+			case 3:
+				return "plantdir " + fname
+			case 4:
+				return "plantfile " + fname + " " + content()
+			default:
+				nTargets++
+				return fmt.Sprintf("plantout outside/t%d %s", rr.Range(1, nTargets), content())
+			}
+		}
+		if foreign {
+			for j, m := 0, rr.Range(1, 3); j < m; j++ {
+				c.Ops = append(c.Ops, plant())
+			}
+		}
 		for j := 0; j < ln; j++ {
+			if foreign && rr.Chance(1, 6) {
+				c.Ops = append(c.Ops, plant())
+			}
 			switch k := rr.Intn(100); {
 			case k < 30:
 				c.Ops = append(c.Ops, "put "+pick()+" "+vh.Pick(rr, keys))
@@ -165,20 +216,36 @@ func run(ks keystore.Keystore, f []string) string {
 
 var fileRe = regexp.MustCompile(`^key_[a-z2-7]+$`)
 
-// scan lists the keystore directory and everything else below root.
+// scan lists the keystore directory and everything else below root (except the directory "outside"
+// itself, which the harness creates as the place foreign link targets live in).
 func scan(root string) (inside []string, outside []string, bad []string) {
 	filepath.WalkDir(root, func(p string, d fs.DirEntry, err error) error {
 		rel, _ := filepath.Rel(root, p)
+		val := func() string {
+			switch {
+			case d.Type()&fs.ModeSymlink != 0:
+				t, _ := os.Readlink(p)
+				rt, _ := filepath.Rel(root, t)
+				return "->" + rt
+			case d.IsDir():
+				return "dir"
+			default:
+				b, _ := os.ReadFile(p)
+				return vh.Hex(b)
+			}
+		}
 		switch {
-		case rel == "." || rel == "ks":
-		case filepath.Dir(rel) == "ks" && d.Type().IsRegular():
-			b, _ := os.ReadFile(p)
-			inside = append(inside, d.Name()+"="+vh.Hex(b))
-			if !fileRe.MatchString(d.Name()) {
+		case rel == "." || rel == "ks" || rel == "outside":
+		case filepath.Dir(rel) == "ks":
+			inside = append(inside, d.Name()+"="+val())
+			if !d.Type().IsRegular() || !fileRe.MatchString(d.Name()) {
 				bad = append(bad, d.Name())
 			}
+			if d.IsDir() {
+				return filepath.SkipDir
+			}
 		default:
-			outside = append(outside, rel)
+			outside = append(outside, rel+"="+val())
 		}
 		return nil
 	})
@@ -201,7 +268,7 @@ func exec(c vh.Case, o *vh.Out) {
 	caseInQuant := true
 	for _, line := range c.Ops {
 		f := strings.Fields(line)
-		if len(f) > 1 && f[0] != "cfg" && !inQuant(string(vh.UnHex(f[1]))) {
+		if len(f) > 1 && f[0] != "cfg" && !strings.HasPrefix(f[0], "plant") && !inQuant(string(vh.UnHex(f[1]))) {
 			caseInQuant = false
 		}
 	}
@@ -209,6 +276,19 @@ func exec(c vh.Case, o *vh.Out) {
 		o.Kind("names-outside-quantifier")
 	}
 	okPut, hit, okDel := false, false, false
+	// cases with foreign objects planted in the directory: the FS/Mem agreement and the map law are not
+	// claimed (the directory is not the keystore's own); confinement and refuse-to-overwrite are
+	foreign := false
+	for _, line := range c.Ops {
+		if strings.HasPrefix(line, "plant") {
+			foreign = true
+		}
+	}
+	if foreign {
+		caseInQuant = false
+		o.Kind("foreign-objects")
+	}
+	plantedOutside := map[string]string{} // rel path -> value, as planted by the harness
 
 	for _, line := range c.Ops {
 		f := strings.Fields(line)
@@ -219,18 +299,59 @@ func exec(c vh.Case, o *vh.Out) {
 			if err != nil {
 				panic(err)
 			}
+			os.RemoveAll(filepath.Join(root, "outside"))
+			os.Mkdir(filepath.Join(root, "outside"), 0o700)
 			mem = keystore.NewMemKeystore()
 			spec = map[string]string{}
 			o.Emit("ok")
+		case "plantsym", "plantdir", "plantfile", "plantout":
+			var p string
+			if f[0] == "plantout" {
+				p = filepath.Join(root, f[1])
+			} else {
+				p = filepath.Join(root, "ks", f[1])
+			}
+			if _, err := os.Lstat(p); err == nil {
+				o.Emit("exists")
+				continue
+			}
+			var err error
+			switch f[0] {
+			case "plantsym":
+				err = os.Symlink(filepath.Join(root, f[2]), p)
+			case "plantdir":
+				err = os.Mkdir(p, 0o700)
+			default:
+				err = os.WriteFile(p, vh.UnHex(f[2]), 0o600)
+				if f[0] == "plantout" {
+					plantedOutside[f[1]] = f[1] + "=" + vh.Hex(vh.UnHex(f[2]))
+				}
+			}
+			if err != nil {
+				panic(err)
+			}
+			o.Kind(f[0])
+			o.Emit("ok")
 		case "has", "put", "get", "del", "list":
+			// refuse-to-overwrite: what lies under the key's file name before the call (lstat view)
+			occupied := false
+			if f[0] == "put" && len(f) > 1 {
+				if n := vh.UnHex(f[1]); len(n) > 0 && encLen(len(n)) <= nameMax {
+					_, lerr := os.Lstat(filepath.Join(root, "ks", fileName(n)))
+					occupied = lerr == nil
+				}
+			}
 			rf := run(fsk, f)
 			rm := run(mem, f)
 			o.Kind(f[0])
+			if occupied && rf != "exists" {
+				o.Fail("put-over-existing-entry", "put %q: an entry with the key's file name exists, Put returned %s", string(vh.UnHex(f[1])), rf)
+			}
 			name := ""
 			if len(f) > 1 {
 				name = string(vh.UnHex(f[1]))
 			}
-			valid := f[0] == "list" && caseInQuant || f[0] != "list" && inQuant(name)
+			valid := !foreign && (f[0] == "list" && caseInQuant || f[0] != "list" && inQuant(name))
 			if valid {
 				// property clause: the two implementations agree
 				if rf != rm {
@@ -291,10 +412,15 @@ func exec(c vh.Case, o *vh.Out) {
 			}
 			// property clause: confinement, checked after every operation
 			_, outside, bad := scan(root)
-			if len(outside) > 0 {
-				o.Fail("outside-keystore-dir", "after %s %q: %v", f[0], name, outside)
+			var want []string
+			for _, v := range plantedOutside {
+				want = append(want, v)
 			}
-			if len(bad) > 0 {
+			sort.Strings(want)
+			if strings.Join(outside, ";") != strings.Join(want, ";") {
+				o.Fail("outside-keystore-dir", "after %s %q: outside the keystore directory: %v, planted there: %v", f[0], name, outside, want)
+			}
+			if len(bad) > 0 && !foreign {
 				o.Fail("bad-filename", "after %s %q: %v", f[0], name, bad)
 			}
 			o.Emit("fs=%s mem=%s", rf, rm)
